@@ -69,11 +69,11 @@ package keeper
 //@ opt prune=1
 //@ property C11 C15 C14
 //@ let vaddr = req.Validator
-//@ let denom = types.TokenDenom(req.Token)
-//@ let held = amt(old(st.locking.Validators[req.Validator].Locking), types.TokenDenom(req.Token))
+//@ let denom = old(types.TokenDenom(req.Token))
+//@ let held = old(amt(st.locking.Validators[req.Validator].Locking, types.TokenDenom(req.Token)))
 //@ let paid = ite(*req.Amount <= held, *req.Amount, held)
 //@ let oldstatus = old(st.locking.Validators[req.Validator].Status)
-//@ let exiting = (oldstatus == 5 || oldstatus == 3 || held - paid < st.locking.Tokens[types.TokenDenom(req.Token)].Threshold)
+//@ let exiting = (oldstatus == 5 || oldstatus == 3 || held - paid < old(st.locking.Tokens[types.TokenDenom(req.Token)].Threshold))
 //@ let due = blocktime() + ite(exiting, param.ExitingDuration, param.UnlockDuration)
 //@ requires args: req != nil && param != nil && req.Amount != nil && *req.Amount >= 0
 //@ requires durations: param.UnlockDuration >= 0 && param.ExitingDuration >= param.UnlockDuration
